@@ -50,6 +50,9 @@ def targets(tier):
     ts = [mk(25), mk(177, big=True), mk(300, big=True), mk(1000, big=True), mk(125_000_000, big=True)]
     if tier != "quick":
         ts += [mk(177), mk(100), mk(25, loosen=False), mk(250, big=True), mk(1000, loosen=False, big=True), mk(62_500_000, big=True)]
+        # the thorough tier ties 177 Hz by lock-step: drop the correspondence-only target of the same name
+        small = {t.name for t in ts if not t.big}
+        ts = [t for t in ts if not (t.big and t.name in small)]
     return ts
 
 
